@@ -30,8 +30,9 @@ def reg_re(E, pattern, shared=None, enabled=None):
 
 
 def install(E):
-    from . import std, bytesm, dashmap, atomic, iters, tokio_io
+    from . import std, std_more, bytesm, dashmap, atomic, iters, tokio_io
     std.install(E)
+    std_more.install(E)
     bytesm.install(E)
     dashmap.install(E)
     atomic.install(E)
